@@ -365,6 +365,14 @@ func nsWalkRules(c *Ctx, prop string) (*report.Result, error) {
 	checkWalkCuts(c, res, r4)
 	checkVisitLibrary(c, res, r4)
 	checkBlobExamined(c, res, r4)
+	{
+		rs := "O12.6"
+		if prop == "C16" {
+			rs = "O16.7"
+		}
+		res.RuleDoc[rs] = "translation and access control keep no memory between messages: no shipped function of the interceptor, proto/compat, auth and collect packages stores into package-level state, receiver fields or sync.Maps after construction - a cache keyed by message type or content (or a 'reported once' set) makes the treatment of one message depend on the ones before it"
+		checkStateless(c, res, rs, []string{"interceptor", "proto/compat", "auth", "collect"}, map[string]string{})
+	}
 
 	if prop == "C12" {
 		checkTranslateOrder(c, m, res)
